@@ -160,15 +160,23 @@ class Lower(Harness):
                     args = [statics[p] for p in sorted(statics)]
                     exp_positions = {k: len(args) + k for k in range(nin)}
                     final_arity = len(args) + nin
-                c = fluent.Node(fluent.Payload(rec, list(args), dict(kw)), inputs=list(parents))
+                pay = fluent.Payload(rec, list(args), dict(kw))
+                if not explicit and ch.flag("payload_used_before"):
+                    # the same Payload object served a node with more inputs before (as a batched reduce does)
+                    extra = fluent.Node(fluent.Payload(src1), name="extra")
+                    fluent.Node(pay, inputs=list(parents) + [extra])
+                c = fluent.Node(pay, inputs=list(parents))
             g = Graph([c])
             names = [n.name for n in g.nodes(forwards=True)]
+            payload_before = (list(c.payload[1]), dict(c.payload[2]))
             try:
                 job = into.graph2job(g)
             except Exception as e:
                 raise Violation(f"lowering-raised-{type(e).__name__}", str(e)[:200])
             if sorted(job.tasks) != sorted(names):
                 raise Violation("tasks-differ-from-nodes", f"{sorted(job.tasks)} vs {sorted(names)}")
+            if (list(c.payload[1]), dict(c.payload[2])) != payload_before:
+                raise Violation("lowering-rewrote-the-node-payload", f"{payload_before} -> {c.payload[1:]}")
             if len(job.edges) != nin:
                 raise Violation("edge-count", f"{len(job.edges)} edges for {nin} inputs")
             try:
